@@ -407,8 +407,13 @@ func evalRBAC(rb *rbacpb.RBAC, r *request) bool {
 	return true // LOG
 }
 
+// evalFilters: ext_authz filters of the CUSTOM action are taken to allow (the external authorizer
+// is outside the statement); RBAC filters decide as Envoy does.
 func evalFilters(fs []*builtFilter, r *request) bool {
 	for _, f := range fs {
+		if f.extAuthz != nil {
+			continue
+		}
 		if f.rules != nil && !evalRBAC(f.rules, r) {
 			return false
 		}
